@@ -19,8 +19,8 @@ PID = "C01"
 LEVEL = "proof"
 LEAN = ["SaVerif.Props.C01"]
 META = {
-    "text": "Lean, three layers. (1) Backend: a backend groups the emitted token sequence with an operator-precedence parser over its binding-power table; proved for EVERY token tree and EVERY grammar: wb g t -> parse g (print t) = t, re-association of associative chains changes neither the text nor the value (print_norm, evalG_norm), and a compositional sufficient condition ok g t -> wb g (norm t) (each node only checks that its operands bind tighter than its own binding powers). (2) SQLAlchemy: construction (self_group / is_precedent / associative flattening / and_-or_ folding / negation rewriting / AsBoolean / _between_impl) and rendering (visit_* + sqlite/postgresql/mysql overrides) are transcribed; the operator tables are REGENERATED from the working tree. End-to-end theorems api_tree_value_bool / api_tree_value_num (for every API-call tree of the fragment, every row, the three-valued value the backend computes from the emitted text IS the meaning of the tree — grouping, flattening, single-clause collapse and negation rewriting included; build_bool_eval, negate_eval, boolConstruct_eval, constructForOp_eval) and api_tree_read_back / render_meaning_preserved: for EVERY API-call tree (NumU/BoolU, any size and nesting) the element `build` constructs is in the core fragment and well grouped (build_num, build_bool: induction through _binary_operate, _boolean_compare, _construct_for_op flattening, and_/or_ _construct, _negate), and (core_render_read_back) every well-grouped element (any size/depth) over + - * % unary-minus = != < <= > >= IS IS-NOT AND OR NOT and parentheses renders to text that SQLite / PostgreSQL / MySQL read back as the same tree, hence (core_render_meaning_preserved) evaluates to the value of the fully parenthesised text under every interpretation with associative + * AND OR; the hypothesis coreCompat (higher regenerated precedence number => binds tighter in the grammar on both sides, naturally self-precedent operators are left-associative chains) is decided by the kernel per grammar; the constructors are proved to establish well-groupedness. For ALL operator pairs (incl. concat, LIKE family, IS DISTINCT, truediv/floordiv forms) the same is decided pairwise per dialect. (3) Semantic rewrites over three-valued logic, all operands: every pair of the regenerated negation table is a true negation except is_/is_not with themselves; every operator of the regenerated _associative set is associative. Ties checked on every run: model text == real compiler text on sqlite/postgresql/mysql/mariadb/default (type affinity included; on a textual difference both texts are re-read by the model grammar), real SQLite groups tokens exactly as the model's sqlite table (also with parentheses dropped at random), and the property itself is tested by executing the real statement on SQLite against an independent fully parenthesised reference over a table with NULLs, negatives, empty strings.",
-    "note": "Known findings (partial theorems + counterexamples in Lean, exact per-tree classification by neutralising the one defective decision): sqlite-concat-parent-arith-child (F1), negate-is-general-operand, between-bound-ungrouped, asbool-operand-ungrouped. The general theorem covers the core fragment; concat / LIKE / BETWEEN / CASE / CAST / functions / IS DISTINCT are covered pairwise (depth 2) by kernel decision plus the per-tree runtime verdict (wb, reading == tree) on every generated tree. PostgreSQL/MySQL grammar tables are from documentation and NOT validated (no server); only SQLite executes. Scalar subqueries and literals are atoms; floating point + and * are treated as associative. Trusted: Lean kernel, harness, backend lexers/bracket matching (the model starts from tokens), SQLite's evaluation of fully parenthesised text.",
+    "text": "Lean, three layers. (1) Backend: a backend groups the emitted token sequence with an operator-precedence parser over its binding-power table; proved for EVERY token tree and EVERY grammar: wb g t -> parse g (print t) = t, re-association of associative chains changes neither the text nor the value (print_norm, evalG_norm), and a compositional sufficient condition ok g t -> wb g (norm t) (each node only checks that its operands bind tighter than its own binding powers). (2) SQLAlchemy: construction (self_group / is_precedent / associative flattening / and_-or_ folding / negation rewriting / AsBoolean / _between_impl) and rendering (visit_* + sqlite/postgresql/mysql overrides) are transcribed; the operator tables are REGENERATED from the working tree. End-to-end theorems api_tree_value_bool / api_tree_value_num (for every API-call tree of the fragment, every row, the three-valued value the backend computes from the emitted text IS the meaning of the tree — grouping, flattening, single-clause collapse and negation rewriting included; build_bool_eval, negate_eval, boolConstruct_eval, constructForOp_eval) and api_tree_read_back / render_meaning_preserved: for EVERY API-call tree (NumU/BoolU, any size and nesting) the element `build` constructs is in the core fragment and well grouped (build_num, build_bool: induction through _binary_operate, _boolean_compare, _construct_for_op flattening, and_/or_ _construct, _negate), and (core_render_read_back) every well-grouped element (any size/depth) over + - * % unary-minus = != < <= > >= IS IS-NOT AND OR NOT, parentheses and the bracket constructs (scalar subquery, function call, CAST, searched / simple CASE: separator chains `,` AS WHEN THEN ELSE inside brackets) renders to text that SQLite / PostgreSQL / MySQL read back as the same tree, hence (core_render_meaning_preserved) evaluates to the value of the fully parenthesised text under every interpretation with associative + * AND OR; the hypothesis coreCompat (higher regenerated precedence number => binds tighter in the grammar on both sides, naturally self-precedent operators are left-associative chains) is decided by the kernel per grammar; the constructors are proved to establish well-groupedness. For ALL operator pairs (incl. concat, LIKE family, IS DISTINCT, truediv/floordiv forms) the same is decided pairwise per dialect. (3) Semantic rewrites over three-valued logic, all operands: every pair of the regenerated negation table is a true negation except is_/is_not with themselves; every operator of the regenerated _associative set is associative. Ties checked on every run: model text == real compiler text on sqlite/postgresql/mysql/mariadb/default (type affinity included; on a textual difference both texts are re-read by the model grammar), real SQLite groups tokens exactly as the model's sqlite table (also with parentheses dropped at random), and the property itself is tested by executing the real statement on SQLite against an independent fully parenthesised reference over a table with NULLs, negatives, empty strings.",
+    "note": "Known findings (partial theorems + counterexamples in Lean, exact per-tree classification by neutralising the one defective decision): sqlite-concat-parent-arith-child (F1), negate-is-general-operand, between-bound-ungrouped, asbool-operand-ungrouped. The general theorem covers the core fragment incl. subquery / CAST / coalesce / CASE (value of a CAST and of a non-coalesce function abstract: class Abs); concat / LIKE / BETWEEN / IN / division / IS DISTINCT are covered pairwise (depth 2) by kernel decision plus the per-tree runtime verdict (wb, reading == tree) on every generated tree. PostgreSQL/MySQL grammar tables are from documentation and NOT validated (no server); only SQLite executes. Scalar subqueries and literals are atoms; floating point + and * are treated as associative. Trusted: Lean kernel, harness, backend lexers/bracket matching (the model starts from tokens), SQLite's evaluation of fully parenthesised text.",
     "technique": "Lean 4: verified precedence-climbing parser round-trip by structural induction + decide over regenerated operator tables + transcribed constructors; differential correspondence of rendering on 5 dialects; execution oracle on SQLite",
     "design_ref": "DESIGN.md §3 C01, §2 F1",
 }
@@ -277,6 +277,19 @@ def trees(ctx, deep):
     big = ctx.tier == "thorough" or deep
     n = 30000 if big else 1300
     maxd = 6 if big else 5
+    # trees of the fragment of the ∀-theorems (api_tree_read_back / api_tree_value_*), deeper than
+    # the general generator goes: they get the oracle, every correspondence and `fragment-verdict`
+    for _ in range(3000 if big else 150):
+        while True:
+            if ctx.rng.random() < 0.5:
+                u = L.frag_bool(ctx.rng, ctx.rng.randint(1, 4))
+            else:
+                u = L.frag_num(ctx.rng, ctx.rng.randint(1, 5))
+            # (SQLite's parser stack is finite: the fully parenthesised reference text of a tree
+            #  with hundreds of nested CASEs is rejected with "parser stack overflow")
+            if len(L.ops_of(u)) <= 120:
+                break
+        yield "fragment", u
     g = L.TreeGen(ctx.rng, exotic=0.04)
     for _ in range(n):
         ty = ctx.rng.choice(["int", "num", "str", "bool", "bool", "bool"])
@@ -307,6 +320,7 @@ def run(ctx, deep=False):
     orc = Oracle()
     cases, impl_out, reqs = [], [], []
     gcases, greqs = [], []
+    fcases = []
     seen = set()
     nviol = 0
     for src, u in trees(ctx, deep):
@@ -347,6 +361,8 @@ def run(ctx, deep=False):
         dls = L.DIALECTS if (src != "pairs" or ctx.tier == "thorough" or deep) else ("sqlite", "postgresql", "mysql")
         for d in dls:
             cases.append({"u": u, "dialect": d})
+            if src == "fragment" and d in ("sqlite", "postgresql", "mysql"):
+                fcases.append(cases[-1])
             reqs.append("expr render %s %s" % (d, w))
             if not built:
                 impl_out.append("error")
@@ -415,6 +431,16 @@ def run(ctx, deep=False):
                     bad_thm.append(c)
         ctx.obligation("model: every core element built by the constructors is well grouped (WG)", not bad_wg, json.dumps(bad_wg[:2]))
         ctx.obligation("model: core + WG elements are ok / read back (executable instance of core_render_read_back)", not bad_thm, json.dumps(bad_thm[:2]))
+        # executable instance of build_num / build_bool + api_tree_read_back on every fragment tree
+        fout = ctx.driver(["expr parse %s %s" % (c["dialect"], " ".join(L.wire(c["u"]))) for c in fcases])
+        fbad = []
+        for c, o in zip(fcases, fout):
+            p = o.split(" ")
+            ctx.count("fragment-verdict=%s" % ("read-back" if (p[0] == "ok" and p[1:] == ["1", "1", "111"]) else "FAIL"))
+            if not (p[0] == "ok" and p[1:] == ["1", "1", "111"]):
+                fbad.append({"case": c, "model": o})
+        ctx.obligation("model: every fragment tree (NumU/BoolU) builds a Core + WG element that is ok and read back "
+                       "(executable instance of api_tree_read_back)", not fbad, json.dumps(fbad[:2]))
     # ---- the Lean semantics (evalNumU / evalBoolU, the meaning used by api_tree_value_*) against
     # the real SQLite, on trees of the theorem's fragment, every row of the table
     if ctx.driver_ok():
